@@ -273,6 +273,17 @@ Theorem C14_ignore_memo_keyed_by_name_refuted :
 Proof. exact memo_keyed_by_name_refuted. Qed.
 Print Assumptions C14_ignore_memo_keyed_by_name_refuted.
 
+(* 10. lint_files_parallel feeds the collected files to the cross-file rules (duplicate code) in the parent, behind the gates
+       Gen.par_evidence_gates: these are the gates of lint_file, so the evidence comes from exactly the files that are linted. *)
+Theorem C14_parallel_evidence_gates : par_evidence_gates = lint_gates.
+Proof. exact par_evidence_gates_spec. Qed.
+Print Assumptions C14_parallel_evidence_gates.
+
+Theorem C14_parallel_evidence_exact : forall q recursive abs sp rel t s,
+  evidence_files q abs (load_patterns q s) (chk_dir q sp rel) (walk (par_collect_recursive recursive) rel t) = run_dir_par q recursive abs sp rel t s.
+Proof. exact evidence_of_parallel_dir_run. Qed.
+Print Assumptions C14_parallel_evidence_exact.
+
 (* non-vacuity: an admissible tree, target and source set on which something is excluded, something is
    ignored by every kind of source, and something is linted *)
 Definition ex_tree : tree :=
